@@ -329,6 +329,21 @@ def perturb_arch(rep, run_seed, idx, style, write='copy'):
             elif style == 'extreme':
                 ch = torch.randint(0, 4, p.shape, generator=g)
                 v = torch.tensor([0.0, -2.0, 50.0, 1.0])[ch]
+            elif style == 'threshold':
+                # mask values on and next to the binarisation threshold 0.5 (and their negatives: PIT takes |.|)
+                ch = torch.randint(0, 7, p.shape, generator=g)
+                v = torch.tensor([0.5, 0.4999, 0.5001, -0.5, -0.4999, 1.0, 0.0])[ch]
+            elif style == 'allzero':
+                v = torch.zeros(p.shape)          # everything pruned down to the keep-alive elements
+            elif style == 'gap_large':
+                n = p.shape[0]
+                cols = int(p.numel() // max(n, 1))
+                vals = []
+                for _ in range(max(cols, 1)):
+                    perm = torch.randperm(n, generator=g).float()
+                    base = (float(torch.rand((), generator=g)) * 2 - 1) * 60
+                    vals.append(base + perm * (0.05 + float(torch.rand((), generator=g)) * 30))
+                v = torch.stack(vals, dim=-1).reshape(p.shape) if p.dim() > 1 else vals[0]
             elif style == 'gap':
                 # every decision vector (dim 0) gets pairwise gaps >= 0.05
                 n = p.shape[0]
@@ -353,6 +368,32 @@ def perturb_arch(rep, run_seed, idx, style, write='copy'):
                 p.data.copy_(v)            # in-place on .data: invisible to autograd's version counter
             else:
                 raise ValueError(write)
+
+
+def perturb_net(rep, run_seed, idx, style):
+    """corner values a search can reach in the network's own parameters / statistics"""
+    g = torch.Generator()
+    g.manual_seed(torch_seed(run_seed, 'perturb_net', idx))
+    nas = {id(p) for p in rep.model.nas_parameters()}
+    with torch.no_grad():
+        if style == 'zero_channel':
+            for n, p in rep.model.named_parameters():
+                if id(p) not in nas and n.endswith('weight') and p.dim() >= 2:
+                    p[int(torch.randint(0, p.shape[0], (), generator=g))].zero_()
+        elif style == 'tiny_clip':
+            for n, p in rep.model.named_parameters():
+                if 'clip_val' in n:
+                    p.fill_(float(torch.tensor([1e-3, 0.05, -0.5, 30.0])[int(torch.randint(0, 4, (), generator=g))]))
+        elif style == 'bn_var_zero':
+            for n, b in rep.model.named_buffers():
+                if n.endswith('running_var'):
+                    b[int(torch.randint(0, b.shape[0], (), generator=g))] = 1e-12
+        elif style == 'big_weights':
+            for n, p in rep.model.named_parameters():
+                if id(p) not in nas and n.endswith('weight'):
+                    p.mul_(25.0)
+        else:
+            raise ValueError(style)
 
 
 def apply_op(rep, op, idx, run_seed, side_hook=None):
@@ -399,6 +440,9 @@ def apply_op(rep, op, idx, run_seed, side_hook=None):
         return {'out': tensor_list(out)}
     if k == 'perturb_arch':
         perturb_arch(rep, run_seed, idx, op['style'], op.get('write', 'copy'))
+        return {'ok': 1}
+    if k == 'perturb_net':
+        perturb_net(rep, run_seed, idx, op['style'])
         return {'ok': 1}
     if k == 'read_cost':
         return {'cost': cost_values(m)}
